@@ -113,7 +113,7 @@ func c06r2(c *core.Ctx) {
 			if _, isP := paramIndexOf(f, v); !isP {
 				return true
 			}
-			if core.NamedName(m.Info.TypeOf(call.Args[0])) != "tableID" && !strings.HasSuffix(m.ExprString(call.Args[0]), ".id") {
+			if core.NamedName(m.Info.TypeOf(call.Args[0])) != "tableID" && fieldKeyOf(m, call.Args[0]) != "table.id" {
 				return true
 			}
 			subject := fmt.Sprintf("%s: %s", f.Name, m.ExprString(call))
